@@ -33,6 +33,9 @@ def make_cases(tier, rng, want_expr=True, n_random=None, n_tiny=None, big=None):
     for i in range(1 if tier == "quick" else 6):
         sp = gen.keyword_grammar(rng, nwords=64 + 10 * i)
         cases.append({"id": "kw:%d" % i, "src": gen.render(sp), "kind": "kw", "spec": sp})
+    for i in range(60 if tier == "quick" else 1500):
+        sp = gen.nullable_web(rng)
+        cases.append({"id": "null:%d" % i, "src": gen.render(sp), "kind": "null", "spec": sp})
     if want_expr:
         for i in range(30 if tier == "quick" else 300):
             sp = gen.expr_grammar(rng)
@@ -116,7 +119,8 @@ def default_inputs(rng, max_len=4, n_sent=6, cap=400):
         while k > 0 and (len(g.terms) + 1) ** k > cap:
             k -= 1
         ins.extend(g.strings_upto(k))
-        for _ in range(n_sent):
+        # the hand-picked corpus grammars get many more sampled sentences (their defects need particular ones)
+        for _ in range(n_sent * 8 if cid.startswith("corpus") else n_sent):
             s = g.sample_sentence(rng)
             if s is not None:
                 ins.append(s)
